@@ -26,6 +26,8 @@ package manifest
 // particular no emitted piece other than a complete escape contains a
 // backslash, so UnescapeName(EscapeName(s)) cannot change the name.
 //@ func EscapeName property C10
+//@   replay check UnescapeName(result) == s
+//@   replay hint "a\\040b", "x\\\\y", "a b", "tab\there"
 //@   ghost len0 int = 0
 //@   ghost c0 byte = 0
 //@   at assign c#1: set len0 = len(escaped)
@@ -48,6 +50,7 @@ package manifest
 //@   modifies fresh(mem:string)
 
 //@ func parseManifestStream property C10 arith checked
+//@   replay hint ". 5d41402abc4b2a76b9719d911017c592+5 0:5:x", ". 5d41402abc4b2a76b9719d911017c592+5 18446744073709551615:2:x", ". 5d41402abc4b2a76b9719d911017c592+9223372036854775807 5d41402abc4b2a76b9719d911017c592+9223372036854775807 5d41402abc4b2a76b9719d911017c592+5 0:3:y", ". 5d41402abc4b2a76b9719d911017c592+5 d41d8cd98f00b204e9800998ecf8427e+0 7d793037a0760186574b0282f2f435e7+5 5:5:foo"
 //@   ghost nb int = 0
 //@   at assign fileTokens#1: set nb = len(m.Blocks)
 //@   ensures m.Err == nil ==> streamValid(m)
